@@ -88,7 +88,7 @@ func (c config) String() string {
 }
 
 var (
-	boxWidths = []float64{0, 8, 14, 25}
+	boxWidths = []float64{0, 8, 11, 14, 25}
 	haligns   = []canvas.TextAlign{canvas.Left, canvas.Right, canvas.Center, canvas.Justify}
 	indents   = [][2]float64{{0, 0}, {3, 0.25}} // (indent, lineStretch)
 )
@@ -149,8 +149,8 @@ func CheckLayout(r *fw.R, toks []int, c config) {
 	}
 	viol := func(class, format string, a ...any) {
 		r.Outcome("VIOLATION:" + class + " {" + feat + "}")
-		if recorded[class] < 10 {
-			recorded[class]++
+		if recorded[class+feat] < 4 {
+			recorded[class+feat]++
 			r.Violate(class, c.String()+": "+fmt.Sprintf(format, a...))
 		}
 	}
@@ -365,9 +365,9 @@ func CheckLayout(r *fw.R, toks []int, c config) {
 			sfx = "-in-overflowing-text"
 		}
 		if W > 0 && !t.Overflows {
-			if end > W+eps {
-				r.Max("overshoot_beyond_width_in_font_units(tolerated<=2/glyph)", (end-W)/unit)
-				r.Max("overshoot_beyond_width_per_glyph_in_font_units", (end-W)/unit/float64(nglyph))
+			if end > W+eps && end <= W+tol {
+				r.Max("tolerated_overshoot_beyond_width_in_font_units(limit=2/glyph)", (end-W)/unit)
+				r.Max("tolerated_overshoot_beyond_width_per_glyph_in_font_units", (end-W)/unit/float64(nglyph))
 			}
 			if end > W+tol || start < -tol {
 				viol("line-beyond-box-without-Overflows", "line %d spans [%.6g,%.6g], box width %g; %s", j, start, end, W, desc())
@@ -436,7 +436,9 @@ func CheckLayout(r *fw.R, toks []int, c config) {
 				if math.Abs(end-W) > tol {
 					viol("justified-line-within-tolerance-does-not-end-at-width"+sfx, "line %d ends at %.9g, width %g, needed ratio %.6g (L=%.6g Y=%.6g Z=%.6g); %s", j, end, W, ratio, L, Y, Z, desc())
 				}
-				r.Max("justified_line_end_error_in_font_units", math.Abs(end-W)/unit)
+				if math.Abs(end-W) <= tol {
+					r.Max("tolerated_justified_line_end_error_in_font_units", math.Abs(end-W)/unit)
+				}
 			} else {
 				r.Outcome("justify:line-outside-tolerance")
 				if math.Abs(end-L) > tol {
@@ -477,9 +479,30 @@ func CheckLayout(r *fw.R, toks []int, c config) {
 // of the shown glyph is not it). Only used for space characters.
 var natCache = map[*canvas.FontFace]map[rune]float64{}
 
+// shaped holds, for the string being checked, the advance the shaper gave to each cluster in
+// context (kerning against neighbours included). It is read from the no-wrap, left-aligned
+// layout of the same string, where advances are passed through unmodified; this uses canvas only
+// as the caller of the (trusted) shaper. Clusters dropped there fall back to the isolated advance.
+var shaped = map[int]float64{}
+
+func readShaped(toks []int, faceMode int) {
+	shaped = map[int]float64{}
+	t, _ := layout(toks, config{faceMode, 0, canvas.Left, 0, 0})
+	t.WalkLines(func(_ float64, spans []canvas.TextSpan) {
+		for _, sp := range spans {
+			for _, g := range sp.Glyphs {
+				shaped[int(g.Cluster)] = float64(g.XAdvance) * sp.Face.MmPerEm
+			}
+		}
+	})
+}
+
 func naturalAdvance(face *canvas.FontFace, in string, c int) float64 {
 	if c < 0 || c >= len(in) {
 		return 0
+	}
+	if v, ok := shaped[c]; ok {
+		return v
 	}
 	ch, _ := utf8.DecodeRuneInString(in[c:])
 	m := natCache[face]
@@ -498,7 +521,7 @@ func naturalAdvance(face *canvas.FontFace, in string, c int) float64 {
 // features of the INPUT that the known root causes need (triage and known-finding keys).
 func features(toks []int) string {
 	var fs []string
-	spaceBeforeNL, spaceAfterNL, nonBoxBeforeSHY, rtl := false, false, false, false
+	spaceBeforeNL, spaceAfterNL, nonBoxBeforeSHY, rtl, twoSpaces := false, false, false, false, false
 	for i, t := range toks {
 		ch := []rune(tokens[t])[0]
 		if i > 0 {
@@ -508,6 +531,9 @@ func features(toks []int) string {
 			}
 			if prev == '\n' && text.IsSpace(ch) {
 				spaceAfterNL = true
+			}
+			if text.IsSpace(prev) && text.IsSpace(ch) {
+				twoSpaces = true
 			}
 			if ch == '\u00AD' && (text.IsSpace(prev) || prev == '\u00AD' || prev == '\n') {
 				nonBoxBeforeSHY = true
@@ -525,6 +551,9 @@ func features(toks []int) string {
 	if spaceAfterNL {
 		fs = append(fs, "space-after-newline")
 	}
+	if twoSpaces {
+		fs = append(fs, "consecutive-spaces")
+	}
 	if nonBoxBeforeSHY {
 		fs = append(fs, "soft-hyphen-not-after-a-letter")
 	}
@@ -535,6 +564,21 @@ func features(toks []int) string {
 		return "plain"
 	}
 	return strings.Join(fs, "+")
+}
+
+func hasFeature(f string) func(v *fw.Violation) bool {
+	return func(v *fw.Violation) bool {
+		k := strings.LastIndex(v.Case, " features=")
+		if k < 0 {
+			return false
+		}
+		for _, x := range strings.Split(v.Case[k+len(" features="):], "+") {
+			if x == f {
+				return true
+			}
+		}
+		return false
+	}
 }
 
 func leadingPad(in string) int {
@@ -636,6 +680,7 @@ func family(faceMode, maxLen int) fw.Family {
 			if visible >= 2 {
 				r.NontrivialIdx()
 			}
+			readShaped(toks, faceMode)
 			for _, w := range boxWidths {
 				for _, h := range haligns {
 					for _, in := range indents {
@@ -672,7 +717,7 @@ func Prop() *fw.Property {
 		"a justified line may end up to 2 font units per glyph away from the box width (glue is stretched in whole font units, DESIGN D21); the observed maximum is reported",
 		"box width 0 means 'no wrapping' (API doc); the fit clause is not applied there",
 		"dropped characters may be spaces, newlines, soft hyphens and zero-width spaces next to a line end; alignment of the first line is measured after the indent",
-		"natural advance of a stretched space = the font's advance of the shown glyph (tdewolff/font, trusted); stretch/shrink = advance x text.SpaceStretch / text.SpaceShrink (no punctuation in the alphabet)",
+		"natural advance of a stretched space = the advance the shaper gave it in context, read from the no-wrap left-aligned layout of the same string (advances are passed through unmodified there); stretch/shrink = advance x text.SpaceStretch / text.SpaceShrink (no punctuation in the alphabet)",
 	}
 	if liberationPath() == "" {
 		as = append(as, "Liberation Serif was not found in the module cache: the third face is dropped (the Hebrew letter is then only laid out as .notdef)")
@@ -681,8 +726,16 @@ func Prop() *fw.Property {
 		ID:    "C16",
 		Level: "exploration",
 		Rule: "every string of <= 4 (quick) / 5 (thorough) tokens over {a, V, fi, space, soft hyphen, no-break space, newline, hyphen, U+05D0, U+3000} x faces {DejaVuSerif 12pt, EBGaramond 10pt, Liberation Serif 12pt, RichText switching DejaVuSerif->EBGaramond after token 2} " +
-			"x box widths {0,8,14,25} mm x {Left,Right,Center,Justify} x (indent,lineStretch) in {(0,0),(3,0.25)}; one evaluation = one string and face under all 32 configurations; non-trivial = at least two visible characters",
+			"x box widths {0,8,11,14,25} mm x {Left,Right,Center,Justify} x (indent,lineStretch) in {(0,0),(3,0.25)}; one evaluation = one string and face under all 40 configurations; non-trivial = at least two visible characters",
 		Assumptions: as,
 		Families:    families,
+		KnownPredicates: map[string]func(*fw.Violation) bool{
+			"space-before-newline":           hasFeature("space-before-newline"),
+			"space-after-newline":            hasFeature("space-after-newline"),
+			"consecutive-spaces":             hasFeature("consecutive-spaces"),
+			"soft-hyphen-not-after-a-letter": hasFeature("soft-hyphen-not-after-a-letter"),
+			"rtl":                            hasFeature("rtl"),
+			"no-wrap":                        func(v *fw.Violation) bool { return strings.Contains(v.Detail, " width=0 ") },
+		},
 	}
 }
